@@ -114,7 +114,8 @@ def run(ctx):
     samples = []
     runs = [("enum", ctx.tlc_design("periph/BanScoreGen", "cfg/BanScoreGen.%s.cfg" % ("quick" if quick else "thorough"),
                                     workers=1, timeout=2400, heap="8g", tag="enum")),
-            ("deep", ctx.tlc_design("periph/BanScoreGen", "cfg/BanScoreGen.deep.cfg", workers=1, timeout=1200, tag="deep"))]
+            ("deep", ctx.tlc_design("periph/BanScoreGen", "cfg/BanScoreGen.%s.cfg" % ("deepq" if quick else "deep"), workers=1,
+                                    timeout=1200, tag="deep"))]
     big = ctx.tlc_design("periph/BanScoreBig", "cfg/BanScoreBig.cfg", workers=1, timeout=600, tag="big-transient-table")
     if big.nexports < 30:
         raise Infra("large-transient case table unexpectedly small (%d)" % big.nexports)
@@ -203,12 +204,12 @@ def run(ctx):
         negative_control="recorded score +1000 rejected",
         exhaustive=True,
         rule="R: every transition of BanScore.tla for clock steps %s, persistent %s, transient %s, <=3 calls, plus a deep "
-             "instance (steps 1/60/1801, <=5 calls), each with its call path, and a TLC-evaluated table of one large transient amount (m*2^20, "
+             "instance (steps 1/60/1801, <=%d calls), each with its call path, and a TLC-evaluated table of one large transient amount (m*2^20, "
              "m in {777,1024,2047}) read after 14 delays around 1200/1800 s (forgetting clause), replayed on p2p/security and p2p/trust; "
              "T: %d seeded random sequences per package (2-8 calls, clock steps from boundaries, 0..200 and 0..4000) judged by TLC; "
              "results on an integer boundary of the exact value (two admitted integers) are accepted and counted as skipped_ambiguous"
              % ((("{0,1,60,61,1801,-1}", "{0,20}", "{0,1,20}") if quick else
-                 ("{0,1,59,60,61,119,1799,1800,1801,-1,-61}", "{0,1,20}", "{0,1,2,20,100}")) + (ntr,)),
+                 ("{0,1,59,60,61,119,1799,1800,1801,-1,-61}", "{0,1,20}", "{0,1,2,20,100}")) + (4 if quick else 5, ntr)),
     ), assumptions=[
         "amounts stay far below 2^32 (no uint32 wrap-around); transient part below 1000 points",
         "a clock stepping backwards is outside the rule: any score between the persistent part and the undecayed sum is admitted",
